@@ -558,9 +558,11 @@ def _make_init(cls: t.Type[PaneBase], fields: t.Sequence[Field]):
     def __init__(self: PaneBase, *args: t.Any, **kwargs: t.Any):
         from_dict = kwargs.pop('_pane_from_dict', None)
         if from_dict is not None:
+            # fields supplied by the caller (the others are defaults): known before `__post_init__` runs, as in the other paths
+            set_fields = kwargs.pop('_pane_set_fields', None)
             for (k, v) in from_dict.items():
                 object.__setattr__(self, k, v)
-            object.__setattr__(self, PANE_SET_FIELDS, set(from_dict.keys()))
+            object.__setattr__(self, PANE_SET_FIELDS, set(from_dict.keys()) if set_fields is None else set(set_fields))
             if hasattr(self, POST_INIT):
                 getattr(self, POST_INIT)()
             return
@@ -610,7 +612,7 @@ def _make_init(cls: t.Type[PaneBase], fields: t.Sequence[Field]):
 
     @classmethod
     def from_dict_unchecked(cls: t.Type[PaneBase], d: t.Dict[str, t.Any], *, set_fields: t.Optional[t.Set[str]] = None) -> PaneBase:
-        self = cls(_pane_from_dict=d)  # type: ignore
+        self = cls(_pane_from_dict=d, _pane_set_fields=set_fields)  # type: ignore
         if set_fields is not None:
             object.__setattr__(self, PANE_SET_FIELDS, set_fields.copy())
         return self
